@@ -673,6 +673,28 @@ func c01(ctx *Ctx) (*Outcome, error) {
 		}
 		cases = append(cases, &c01Case{root: root, args: RandArgs(r, root), tag: "clean"})
 	}
+	// enumerated: a custom type from every package the generated code may import itself (and from foreign ones) x the
+	// options that decide which of those imports the generator adds on its own
+	for _, e := range [][2]string{{"yaml.Node", "gopkg.in/yaml.v3"}, {"json.RawMessage", "encoding/json"}, {"reflect.Kind", "reflect"}, {"regexp.Regexp", "regexp"}, {"strings.Builder", "strings"},
+		{"time.Time", "time"}, {"time.Duration", "time"}, {"mapstructure.Metadata", "github.com/go-viper/mapstructure/v2"}, {"fmt.Stringer", "fmt"}, {"big.Int", "math/big"}, {"url.URL", "net/url"}, {"netip.Addr", "net/netip"}, {"math.Mode", ""}} {
+		if e[1] == "" {
+			continue
+		}
+		for _, args := range [][]string{nil, {"--extra-imports"}, {"--only-models"}, {"--extra-imports", "--only-models"}, {"--extra-imports", "--min-sized-ints"}} {
+			ext := jsonx.Obj{{K: "type", V: e[0]}, {K: "imports", V: []any{e[1]}}}
+			root := &sg.Schema{Types: []string{"object"}, Props: []sg.Prop{
+				{Name: "custom", S: &sg.Schema{Types: []string{"string"}, Ext: ext}},
+				{Name: "name", S: &sg.Schema{Types: []string{"string"}, MinLen: 1, Pattern: "^[a-z]+$"}},
+				{Name: "when", S: &sg.Schema{Types: []string{"string"}, Format: "date-time"}},
+				{Name: "addr", S: &sg.Schema{Types: []string{"string", "null"}, Format: "ipv4"}},
+				{Name: "ratio", S: &sg.Schema{Types: []string{"number"}, MultipleOf: sg.Fp(0.5)}},
+				{Name: "kind", S: &sg.Schema{Types: []string{"string"}, HasEnum: true, Enum: []any{"a", "b"}}},
+				{Name: "bag", S: &sg.Schema{Types: []string{"object"}, Props: []sg.Prop{{Name: "k", S: &sg.Schema{Types: []string{"string"}}}}, AddProps: &sg.Schema{Types: []string{"integer"}}}},
+				{Name: "customList", S: &sg.Schema{Types: []string{"array"}, Items: &sg.Schema{Types: []string{"object"}, Ext: ext}}},
+			}, Required: []string{"name"}}
+			cases = append(cases, &c01Case{root: root, args: args, tag: "clean"})
+		}
+	}
 	// hazard part: recorded triggers embedded in random schemas
 	nh := ctx.N(120, 2000)
 	for i := 0; i < nh; i++ {
